@@ -143,7 +143,16 @@ TraceSetConfig ==
         /\ Report(e, Failing({<<"C02.raised", e.exc = "">>,
                               <<"C02.state_after_assigning_configuration", e.exc # "" \/ ObjOfRec(e.post) = o>>}))
 
-Next == TraceNew \/ TraceThreshold \/ TraceThresholdEmpty \/ TraceThresholdBig \/ TraceSetConfig \/ TraceShiftScores
+(* history: the caller re-binds one of the (sorted) score arrays of a live object               *)
+TraceSetScores ==
+  /\ IsEvent("SetScores")
+  /\ LET e == Log[l]
+         o == IF e.cls = "pos" THEN [store[e.h] EXCEPT !.pos = e.seq] ELSE [store[e.h] EXCEPT !.neg = e.seq]
+     IN /\ store' = (e.h :> o) @@ store
+        /\ Report(e, Failing({<<"C02.raised", e.exc = "">>,
+                              <<"C02.state_after_rebinding_scores", e.exc # "" \/ ObjOfRec(e.post) = o>>}))
+
+Next == TraceNew \/ TraceThreshold \/ TraceThresholdEmpty \/ TraceThresholdBig \/ TraceSetConfig \/ TraceShiftScores \/ TraceSetScores
 Spec == Init /\ [][Next]_vars
 AllConsumed == TLCGet("stats").diameter - 1 = Len(Log)
 =============================================================================
